@@ -358,6 +358,10 @@ func (b *ByteBuffer) PrepareRead(n int) (err error) {
 // in the callback and the unused bytes will be used in future claims.
 func (b *ByteBuffer) Claim(fn func(b []byte) int) {
 	n := fn(b.data[b.wi:cap(b.data)])
+	if n > cap(b.data)-b.wi {
+		// More than what was handed out (also guards b.wi + n against overflow).
+		return
+	}
 	if wi := b.wi + n; n >= 0 && wi <= cap(b.data) {
 		// wi <= cap(b.data) because the invariant is that b.wi = min(len(b.data), cap(b.data)) after each call
 		b.wi = wi
@@ -370,6 +374,10 @@ func (b *ByteBuffer) Claim(fn func(b []byte) int) {
 // Callers do not have the option to write less than they claim. The write area
 // will grow by `n`.
 func (b *ByteBuffer) ClaimFixed(n int) (claimed []byte) {
+	if n > cap(b.data)-b.wi {
+		// More than what is reserved (also guards b.wi + n against overflow).
+		return
+	}
 	if wi := b.wi + n; n >= 0 && wi <= cap(b.data) {
 		claimed = b.data[b.wi:wi]
 		b.wi = wi
